@@ -87,7 +87,10 @@ def map_actuals_to_formals(
             actualt = get_proper_type(actual_arg_type(ai))
             if isinstance(actualt, TypedDictType):
                 for name in actualt.items:
-                    if name in formal_names:
+                    if (
+                        name in formal_names
+                        and formal_kinds[formal_names.index(name)] != nodes.ARG_STAR
+                    ):
                         formal_to_actual[formal_names.index(name)].append(ai)
                     elif nodes.ARG_STAR2 in formal_kinds:
                         formal_to_actual[formal_kinds.index(nodes.ARG_STAR2)].append(ai)
@@ -248,7 +251,11 @@ class ArgTypeExpander:
                     assert formal_name is not None
                 else:
                     # Pick an arbitrary item if no specified keyword is expected.
-                    formal_name = (set(actual_type.items.keys()) - self.kwargs_used).pop()
+                    unused = set(actual_type.items.keys()) - self.kwargs_used
+                    if not unused:
+                        # All keys were already consumed by another ** argument.
+                        return AnyType(TypeOfAny.from_error)
+                    formal_name = unused.pop()
                 self.kwargs_used.add(formal_name)
                 return actual_type.items[formal_name]
             elif isinstance(actual_type, Instance) and is_subtype(
